@@ -400,7 +400,13 @@ class HistogramCase(Case):
         from vectorizers import HistogramVectorizer
         c = cls("HistogramVectorizer")
         c.cls = HistogramVectorizer
-        c.pool = [draw_numseq(tape, "hi.seq", 1, 12) for _ in range(tape.between("hi.pool", 5, 12))]
+        # sometimes all sequences have one length and the caller passes a 2-D ndarray instead of a list of arrays
+        c.as_ndarray = tape.chance("hi.ndarray", 1, 3)
+        if c.as_ndarray:
+            ln = tape.between("hi.eqlen", 2, 8)
+            c.pool = [draw_numseq(tape, "hi.seq", ln, ln) for _ in range(tape.between("hi.pool", 5, 12))]
+        else:
+            c.pool = [draw_numseq(tape, "hi.seq", 1, 12) for _ in range(tape.between("hi.pool", 5, 12))]
         ntrain = tape.between("hi.ntrain", 2, len(c.pool) - 1)
         c.train_ids = list(range(ntrain))
         c.params = {"n_components": tape.choice("hi.bins", [2, 5, 20]),
@@ -408,13 +414,20 @@ class HistogramCase(Case):
                     "append_outlier_bins": tape.chance("hi.outlier", 1, 2)}
         # a finite absolute_range leaves some values without a bin (bins are left-open: 0 is outside (0, inf))
         c.abs_range = tape.weighted("hi.range", [(3, None), (2, (0, float("inf"))), (1, (1.0, 8.0))])
-        c.desc.update(params=dict(c.params), absolute_range=repr(c.abs_range), pool=len(c.pool), ntrain=ntrain)
+        c.desc.update(params=dict(c.params), absolute_range=repr(c.abs_range), pool=len(c.pool), ntrain=ntrain,
+                      input_is_2d_ndarray=c.as_ndarray)
         return c
 
     def param_objects(self):
         if self.abs_range is not None:
             return {"absolute_range": tuple(self.abs_range)}
         return {}
+
+    def build(self, ids, for_fit=False):
+        seqs = [self.pool[i].copy() for i in ids]
+        if self.as_ndarray and seqs:
+            return np.vstack(seqs), {}
+        return seqs, {}
 
 
 class KDECase(Case):
@@ -503,7 +516,8 @@ class _MatrixCase(Case):
     def _draw_matrix(self, tape, kind, allow_empty_row=False):
         n_cols = tape.choice(kind + ".ncols", [4, 7, 12])
         n_rows = tape.between(kind + ".nrows", 6, 14)
-        self.base = draw_counts(tape, kind, n_rows, n_cols, min(5, n_cols), allow_empty_row=allow_empty_row)
+        # all-zero rows are legal input for the three matrix transformers (the repository's own tests use them)
+        self.base = draw_counts(tape, kind, n_rows, n_cols, min(5, n_cols), allow_empty_row=True)
         self.pool = list(range(n_rows))
         self.in_format = tape.weighted(kind + ".fmt", [(3, "csr"), (2, "csc"), (1, "dense")])
         self.explicit_zero = tape.chance(kind + ".expzero", 1, 3)
@@ -974,7 +988,14 @@ class EdgeListCase(Case):
         c.user_rows = {f"r{i}": i for i in range(nr)} if tape.chance("el.userrows", 1, 2) else None
         c.user_cols = {f"c{i}": i for i in range(nc)} if tape.chance("el.usercols", 1, 2) else None
         c.params = {}
-        c.desc.update(user_rows=c.user_rows is not None, user_cols=c.user_cols is not None, n_edges=len(c.edges))
+        if tape.chance("el.joint", 1, 3):
+            # both columns over one label space; at most one user dictionary is allowed then
+            c.params = {"joint_space": True}
+            c.edges = [(a.replace("r", "n"), b.replace("c", "n"), v) for a, b, v in c.edges]
+            c.user_cols = None
+            if c.user_rows is not None:
+                c.user_rows = {f"n{i}": i for i in range(max(nr, nc) + 1)}
+        c.desc.update(user_rows=c.user_rows is not None, user_cols=c.user_cols is not None, n_edges=len(c.edges), params=dict(c.params))
         return c
 
     def param_objects(self):
